@@ -106,12 +106,14 @@ def newTerm (w : World) (i : Nat) (t : Int) : World × Except Err (Int × Int) :
     else if t = n.term ∧ n.status ≠ .fenced then (setNode w i n, .error .invalidStatus)
     else (setNode w i { n with term := t, status := .fenced, cursors := [], rf := 0 }, .ok (headOf n.log))
 
+/-- scan for the last entry with a term at most `t` (`i` = offset of the first entry of the list) -/
+def lastLE : List Entry → Int → Nat → Int × Int → Int × Int
+  | [], _, _, acc => acc
+  | e :: es, t, i, acc => lastLE es t (i + 1) (if e.term ≤ t then (e.term, (i : Int)) else acc)
+
 /-- `getHighestEntryOfTerm`: the last entry of the leader's log whose term is **at most** `t`
     (the reverse scan stops at the first entry with `e.Term <= term`) -/
-def highestOfTerm (log : List Entry) (t : Int) : Int × Int :=
-  match (log.zipIdx.filter (fun p => p.1.term ≤ t)).getLast? with
-  | some p => (p.1.term, (p.2 : Int))
-  | none => (-1, -1)
+def highestOfTerm (log : List Entry) (t : Int) : Int × Int := lastLE log t 0 (-1, -1)
 
 /-- the follower's side of the Truncate RPC -/
 def truncateFollower (cfg : Cfg) (w : World) (f : Nat) (t : Int) (upTo : Int) : World × Except Err Int :=
